@@ -40,6 +40,48 @@ type linRec struct {
 
 var linSerial int64
 
+// a reusable barrier: every goroutine of a case passes it the same number of times
+type linBarrier struct {
+	mu    sync.Mutex
+	cond  *sync.Cond
+	n     int
+	count int
+	gen   int
+	off   bool
+}
+
+func newLinBarrier(n int) *linBarrier {
+	b := &linBarrier{n: n}
+	b.cond = sync.NewCond(&b.mu)
+	return b
+}
+
+func (b *linBarrier) wait() {
+	b.mu.Lock()
+	defer b.mu.Unlock()
+	if b.off {
+		return
+	}
+	gen := b.gen
+	b.count++
+	if b.count == b.n {
+		b.gen++
+		b.count = 0
+		b.cond.Broadcast()
+		return
+	}
+	for gen == b.gen && !b.off {
+		b.cond.Wait()
+	}
+}
+
+func (b *linBarrier) abort() {
+	b.mu.Lock()
+	b.off = true
+	b.cond.Broadcast()
+	b.mu.Unlock()
+}
+
 func execLin(in linInput, scratch string) (Case, error) {
 	c := Case{Input: in}
 	id := atomic.AddInt64(&linSerial, 1)
@@ -92,6 +134,7 @@ func execLin(in linInput, scratch string) (Case, error) {
 	var uniq int64
 	var wg sync.WaitGroup
 	var fatal atomic.Value
+	bar := newLinBarrier(in.Goroutines)
 	for g := 0; g < in.Goroutines; g++ {
 		wg.Add(1)
 		go func(g int) {
@@ -99,6 +142,7 @@ func execLin(in linInput, scratch string) (Case, error) {
 			defer func() {
 				if r := recover(); r != nil {
 					fatal.Store(fmt.Sprintf("panic in goroutine %d: %v", g, r))
+					bar.abort()
 				}
 			}()
 			r := rand.New(rand.NewSource(in.Seed*1000 + int64(g)))
@@ -112,6 +156,54 @@ func execLin(in linInput, scratch string) (Case, error) {
 						return rErr(e)
 					}
 					return C("RCas", N(cs))
+				}
+				if i%5 == 4 {
+					// a burst: all goroutines read the same version of one key, then all try to replace it at once -
+					// exactly one may win
+					key := []string{"m", "u"}[(i/5)%2]
+					bar.wait()
+					rd := linRec{key: key, op: C("KGetRaw")}
+					rd.inv = time.Since(start).Nanoseconds()
+					v, cs, e := col.GetRaw(key)
+					rd.ret = time.Since(start).Nanoseconds()
+					if e != nil {
+						rd.resp = rErr(e)
+						cs = 0
+					} else {
+						rd.resp = C("RVal", S(string(v)), N(cs))
+					}
+					lastCas[key] = cs
+					bar.wait()
+					rec.key = key
+					if key == "m" {
+						nc := uint64(1)<<50 + uint64(u)
+						val := fmt.Sprintf(`{"w":%d}`, u)
+						rec.op = C("KSetWithMeta", N(cs), N(nc), N(0), C("XNull"), Some(S(val)), B(true))
+						rec.inv = time.Since(start).Nanoseconds()
+						e := col.SetWithMeta(ctxBg, "m", cs, nc, 0, nil, []byte(val), sgbucket.FeedDataTypeJSON)
+						rec.ret = time.Since(start).Nanoseconds()
+						if e != nil {
+							rec.resp = rErr(e)
+						} else {
+							rec.resp = C("ROk")
+							lastCas["m"] = nc
+							atomic.AddInt64(&acks, 1)
+						}
+					} else {
+						val := fmt.Sprintf("[b%d]", u)
+						rec.op = C("KWriteCas", N(0), N(cs), Some(S(val)), B(true), B(false), B(false))
+						rec.inv = time.Since(start).Nanoseconds()
+						co, e := col.WriteCas("u", 0, cs, []byte(val), sgbucket.Raw)
+						rec.ret = time.Since(start).Nanoseconds()
+						rec.resp = casResp(co, e)
+						if e == nil {
+							atomic.AddInt64(&acks, 1)
+						}
+					}
+					rmu.Lock()
+					recs = append(recs, rd, rec)
+					rmu.Unlock()
+					continue
 				}
 				x := r.Intn(100)
 				switch {
